@@ -38,6 +38,10 @@
 (*   test d         Z := (d = 0)      cmpi d v   Z := (d = v)    setz v      *)
 (*   cmpm s v       Z := (mem[s] = v) (w bytes compared)                     *)
 (*   gadd d v       d := atomic.AddUint32(&l.state, v)                       *)
+(*   bts s / lbts s C := bit 0 of mem[s]; mem[s] := mem[s] | 1.  BTS with a  *)
+(*                  memory operand is a read followed by a write (two steps) *)
+(*                  unless it carries a LOCK prefix (lbts)                   *)
+(*   jc to / jnc to jump on the carry flag                                   *)
 (*   dec d / inc d  d := d -/+ 1 (mod CMod), Z := (d = 0)                    *)
 (*   jz to / jnz to / jmp to          nop                                    *)
 (*   call s         call the function s points to (s must be yieldFn # nil)  *)
@@ -60,7 +64,7 @@ CONSTANTS Tasks, MaxOps,
           Bug              \* design mutants of the interpreter (leg M): "none" | "XchgNotAtomic" | "BufferNotFifo"
 
 PTR == 100   YIELD == 101   UNDEF == 0 - 1   CMod == 4
-NoRegs == [AX |-> UNDEF, BX |-> UNDEF, CX |-> UNDEF, ATT |-> 0, RET |-> 0, Z |-> FALSE]
+NoRegs == [AX |-> UNDEF, BX |-> UNDEF, CX |-> UNDEF, ATT |-> 0, RET |-> 0, Z |-> FALSE, C |-> FALSE]
 
 VARIABLES state,     \* the lock word in memory
           nb,        \* the 4 bytes behind it
@@ -68,7 +72,7 @@ VARIABLES state,     \* the lock word in memory
           counter,   \* the protected datum in memory
           buf,       \* task -> store buffer: sequence of <<location, value>>, oldest first
           pc,        \* task -> 0 idle | 1..Len(Prog) next instruction | -1 in the critical section
-          cur,       \* task -> "acq" | "try" | "rel": the method that is executing while pc > 0
+          cur,       \* task -> "acq" | "try" | "rel" | "srel" (Release by a task that holds nothing, on a free lock)
           hold,      \* task -> TRUE from the call of Release until its first store to the lock word
           reg,       \* task -> [AX, BX, CX, ATT, Z]
           tmp,       \* task -> value of the datum read on entry (also scratch of design mutant XchgNotAtomic)
@@ -121,10 +125,11 @@ Env == /\ EnvNb /\ nb \in {0, 1} /\ nb' = 1 - nb /\ nbenv' = 1 - nb
 (* calls *)
 Enter(t, entry, what) == /\ pc' = [pc EXCEPT ![t] = entry] /\ cur' = [cur EXCEPT ![t] = what]
                          /\ reg' = [reg EXCEPT ![t] = NoRegs]
-CallAcquire(t) == /\ EntryAcq > 0 /\ pc[t] = 0 /\ nops[t] < MaxOps
+NoStray == \A u \in Tasks : ~(cur[u] = "srel" /\ pc[u] # 0)
+CallAcquire(t) == /\ EntryAcq > 0 /\ pc[t] = 0 /\ nops[t] < MaxOps /\ NoStray
                   /\ Enter(t, EntryAcq, "acq") /\ nops' = [nops EXCEPT ![t] = @ + 1]
                   /\ UNCHANGED <<state, nb, nbenv, counter, buf, hold, tmp, done, wild>>
-CallTry(t) == /\ EntryTry > 0 /\ pc[t] = 0 /\ nops[t] < MaxOps
+CallTry(t) == /\ EntryTry > 0 /\ pc[t] = 0 /\ nops[t] < MaxOps /\ NoStray
               /\ Enter(t, EntryTry, "try") /\ nops' = [nops EXCEPT ![t] = @ + 1]
               /\ UNCHANGED <<state, nb, nbenv, counter, buf, hold, tmp, done, wild>>
 \* the holder writes the datum (a plain store) and calls Release
@@ -133,12 +138,21 @@ CallRelease(t) == /\ pc[t] = 0 - 1 /\ RelEntry > 0
                   /\ PlainStore(t, "counter", tmp[t] + 1)
                   /\ Enter(t, RelEntry, "rel") /\ hold' = [hold EXCEPT ![t] = TRUE]
                   /\ UNCHANGED <<nbenv, tmp, done, nops, wild>>
+\* "Calling Release while the lock is free has no effect": any task, also one that never acquired, runs the Release
+\* body while the lock is free and every task is outside any call; the lock must stay free and acquirable.
+CallStray(t) == /\ RelEntry > 0 /\ nops[t] < MaxOps
+                /\ \A u \in Tasks : pc[u] = 0 /\ buf[u] = <<>>
+                /\ state = 0
+                /\ Enter(t, RelEntry, "srel") /\ nops' = [nops EXCEPT ![t] = @ + 1]
+                /\ UNCHANGED <<state, nb, nbenv, counter, buf, hold, tmp, done, wild>>
 \* leg M variant RelPlain: Release == l.state = 0 ; return
-PlainRel(t) == /\ RelPlain /\ cur[t] = "rel" /\ pc[t] \in {Len(Prog) + 1, Len(Prog) + 2}
+PlainRel(t) == /\ RelPlain /\ cur[t] \in {"rel", "srel"} /\ pc[t] \in {Len(Prog) + 1, Len(Prog) + 2}
                /\ IF pc[t] = Len(Prog) + 1
                   THEN /\ PlainStore(t, "state", 0) /\ pc' = [pc EXCEPT ![t] = @ + 1]
                        /\ hold' = [hold EXCEPT ![t] = FALSE] /\ UNCHANGED done
-                  ELSE /\ pc' = [pc EXCEPT ![t] = 0] /\ done' = done + 1 /\ UNCHANGED <<state, nb, counter, buf, hold>>
+                  ELSE /\ cur[t] = "srel" => Drained(t)
+                       /\ pc' = [pc EXCEPT ![t] = 0] /\ done' = (IF cur[t] = "rel" THEN done + 1 ELSE done)
+                       /\ UNCHANGED <<state, nb, counter, buf, hold>>
                /\ UNCHANGED <<nbenv, cur, reg, tmp, nops, wild>>
 
 Goto(t, n) == pc' = [pc EXCEPT ![t] = n]
@@ -191,6 +205,16 @@ Step(t) ==
                                         /\ Good /\ UNCHANGED <<counter, buf>> /\ Gives(t)
                               ELSE Goto(t, n) /\ SetReg(t, i.d, UNDEF) /\ Same /\ Keeps
                                    /\ Bad(t, "xchg operands are not (value register, lock address)")
+       [] i.op = "bts"     -> /\ pc' = [pc EXCEPT ![t] = 0 - (1000 + pc[t])] /\ Same /\ Keeps       \* read half; the write half is XchgWrite
+                              /\ reg' = [reg EXCEPT ![t].C = (Read(t, "state") % 2 = 1)]
+                              /\ IF r[i.s] = PTR THEN Good ELSE Bad(t, "bts through a register that does not hold the lock address")
+       [] i.op = "lbts"    -> /\ Drained(t) /\ Goto(t, n) /\ UNCHANGED <<nb, counter, buf>>
+                              /\ reg' = [reg EXCEPT ![t].C = (state % 2 = 1)]
+                              /\ state' = IF state % 2 = 1 THEN state ELSE state + 1
+                              /\ Gives(t)
+                              /\ IF r[i.s] = PTR THEN Good ELSE Bad(t, "bts through a register that does not hold the lock address")
+       [] i.op = "jc"      -> Goto(t, IF r.C THEN i.to ELSE n) /\ Good /\ Same /\ Keeps /\ UNCHANGED reg
+       [] i.op = "jnc"     -> Goto(t, IF ~r.C THEN i.to ELSE n) /\ Good /\ Same /\ Keeps /\ UNCHANGED reg
        [] i.op = "test"    -> /\ Goto(t, n) /\ Same /\ Keeps
                               /\ reg' = [reg EXCEPT ![t].Z = (RegW(r[i.d], i.w) = 0)]
                               /\ IF r[i.d] = UNDEF THEN Bad(t, "test of an undefined register") ELSE Good
@@ -217,24 +241,28 @@ Step(t) ==
        [] i.op = "ret" /\ r.RET # 0 ->      \* the assembly routine returns into Acquire
                               Goto(t, r.RET) /\ reg' = [reg EXCEPT ![t].RET = 0] /\ Good /\ Same /\ Keeps
        [] i.op \in {"ret", "rett", "retf"} ->
+                              \* a stray release only counts as over once its store is visible (otherwise it would
+                              \* overlap a later acquisition, which is outside the property)
+                              /\ cur[t] = "srel" => Drained(t)
                               /\ Same /\ UNCHANGED reg
                               /\ hold' = [hold EXCEPT ![t] = FALSE]
                               /\ IF (cur[t] = "try") = (i.op # "ret") THEN Good ELSE Bad(t, "return kind does not fit the method")
-                              /\ pc' = [pc EXCEPT ![t] = IF cur[t] = "rel" \/ i.op = "retf" THEN 0 ELSE 0 - 1]
+                              /\ pc' = [pc EXCEPT ![t] = IF cur[t] \in {"rel", "srel"} \/ i.op = "retf" THEN 0 ELSE 0 - 1]
   /\ LET i == Prog[pc[t]] IN
-       /\ IF i.op \in {"ret", "rett"} /\ cur[t] # "rel" /\ reg[t].RET = 0 THEN tmp' = [tmp EXCEPT ![t] = Read(t, "counter")]
+       /\ IF i.op \in {"ret", "rett"} /\ cur[t] \notin {"rel", "srel"} /\ reg[t].RET = 0 THEN tmp' = [tmp EXCEPT ![t] = Read(t, "counter")]
           ELSE IF i.op = "xchg" /\ Bug = "XchgNotAtomic" THEN tmp' = [tmp EXCEPT ![t] = reg[t][i.d]]
+          ELSE IF i.op = "bts" THEN tmp' = [tmp EXCEPT ![t] = LET v == Read(t, "state") IN IF v % 2 = 1 THEN v ELSE v + 1]
           ELSE UNCHANGED tmp
        /\ done' = IF i.op = "ret" /\ cur[t] = "rel" /\ reg[t].RET = 0 THEN done + 1 ELSE done
   /\ UNCHANGED <<nbenv, cur, nops>>
 
-\* second half of the non-atomic exchange of design mutant XchgNotAtomic
+\* second half of a read-modify-write that is not atomic (design mutant XchgNotAtomic; BTS without LOCK)
 XchgWrite(t) == /\ pc[t] < 0 - 1000
                 /\ state' = tmp[t] /\ pc' = [pc EXCEPT ![t] = (0 - pc[t]) - 1000 + 1]
                 /\ UNCHANGED <<nb, nbenv, counter, buf, cur, hold, reg, tmp, done, nops, wild>>
 
 Proceed(t) == Step(t) \/ XchgWrite(t) \/ CallRelease(t) \/ PlainRel(t) \/ Drain(t)
-Next == (\E t \in Tasks : CallAcquire(t) \/ CallTry(t) \/ Proceed(t)) \/ Env
+Next == (\E t \in Tasks : CallAcquire(t) \/ CallTry(t) \/ CallStray(t) \/ Proceed(t)) \/ Env
 Spec == Init /\ [][Next]_vars /\ \A t \in Tasks : WF_vars(Proceed(t))
 
 ---------------------------------------------------------------------------
